@@ -20,6 +20,7 @@ def run_batch(ctx, module, cfg, cases, observers, sigfn, negfn=None, chunk=30000
             return
         events = observe_all(ctx, observers, buf, parallel)
         negs = []
+        negorig = []
         if negfn:
             for k in range(0, len(events), neg_every):
                 n = negfn(events[k])
@@ -27,8 +28,12 @@ def run_batch(ctx, module, cfg, cases, observers, sigfn, negfn=None, chunk=30000
                     n = dict(n)
                     n["neg"] = 1
                     negs.append(n)
-        verdicts = ctx.validate(module, cfg, events + negs, env=env, label=module)
-        ctx.negative_controls(verdicts[len(events):], negs)
+                    negorig.append(k)
+        verdicts = ctx.validate(module, cfg, events + negs, env=env, label=module, nreal=len(events))
+        # a corrupted copy of an event the spec accepted ("ok") must be rejected (binding / vacuity control)
+        for k, n, v in zip(negorig, negs, verdicts[len(events):]):
+            if verdicts[k] == "ok":
+                ctx.negative_controls([v], [n])
         for (o, i), ev, v in zip(buf, events, verdicts):
             ctx.evaluations += 1
             if v == "triv":
